@@ -249,6 +249,27 @@ fn leg_jets(ctx: &Ctx, out: &mut Out, envs_: &[(String, envs::Built)]) {
     }
 }
 
+/// comp witness (comp (pair iden inspect_A) (comp (take t) (pair iden inspect_B))) : 1 -> B x 1 (or 1 -> B when
+/// B is wide): the two inspectors destruct A and B completely, which makes the term's annotation principal
+pub fn pinned_expression(t: &std::rc::Rc<crate::reference::eval::Term>, input: &std::rc::Rc<crate::reference::tyval::RV>) -> std::rc::Rc<crate::reference::eval::Term> {
+    use crate::reference::eval::{Term, Tm};
+    use crate::reference::tyval::RT;
+    let one = RT::unit();
+    let w = Term::new(Tm::Witness(input.clone()), &one, &t.src);
+    let a1 = RT::prod(&t.src, &one);
+    let b1 = RT::prod(&t.tgt, &one);
+    let pin_a = Term::new(Tm::Pair(Term::new(Tm::Iden, &t.src, &t.src), inspect_term(&t.src)), &t.src, &a1);
+    let run = Term::new(Tm::Take(t.clone()), &a1, &t.tgt);
+    let body = if t.tgt.width() <= 16 {
+        let pin_b = Term::new(Tm::Pair(Term::new(Tm::Iden, &t.tgt, &t.tgt), inspect_term(&t.tgt)), &t.tgt, &b1);
+        Term::new(Tm::Comp(run, pin_b), &a1, &b1)
+    } else {
+        run
+    };
+    let tgt = body.tgt.clone();
+    Term::new(Tm::Comp(w, Term::new(Tm::Comp(pin_a, body), &t.src, &tgt)), &one, &tgt)
+}
+
 /// inspect_T : T -> 1, whose principal source type is exactly T (cf. C12)
 fn inspect_term(t: &std::rc::Rc<crate::reference::tyval::RT>) -> std::rc::Rc<crate::reference::eval::Term> {
     use crate::reference::eval::{Term, Tm};
@@ -293,6 +314,31 @@ fn leg_term_outputs(ctx: &Ctx, out: &mut Out, envs_: &[(String, envs::Built)]) {
     }
     let mut terms: Vec<(String, std::rc::Rc<Term>)> = disconnect_terms(ctx.tier).into_iter().filter(|t| !has_fail(t)).map(|t| (t.describe(), t)).collect();
     terms.extend(asymmetric_terms());
+    // every small term with a case, assertion, composition or pair in it, followed by a second read of its
+    // input (pair t iden): what a combinator leaves behind in the read frame is visible to both evaluators
+    {
+        use crate::space::terms::{place, Place, Universe};
+        fn interesting(t: &Term) -> bool {
+            match &t.tm {
+                Tm::Case(..) | Tm::Comp(..) | Tm::Pair(..) | Tm::AssertL(..) | Tm::AssertR(..) => true,
+                Tm::InjL(s) | Tm::InjR(s) | Tm::Take(s) | Tm::Drop(s) => interesting(s),
+                _ => false,
+            }
+        }
+        let mut u = Universe::new(2, true);
+        let nt = u.types.len();
+        for a in 0..nt {
+            for d in 0..nt {
+                for size in 2..=ctx.tier.pick(3, 4) {
+                    for t in u.gen(a, d, size).iter() {
+                        if interesting(t) && !has_fail(t) && !matches!(t.tm, Tm::Witness(_)) {
+                            terms.push((format!("{} then iden", t.describe()), place(t, Place::ThenReread)));
+                        }
+                    }
+                }
+            }
+        }
+    }
     let env = &envs_[0].1.env;
     for (name, t) in terms {
         if !ctx.mine() {
@@ -308,22 +354,7 @@ fn leg_term_outputs(ctx: &Ctx, out: &mut Out, envs_: &[(String, envs::Built)]) {
             out.nontrivial += 1;
             out.transitions += 2;
             let res = guard(|| -> Result<&'static str, (String, String)> {
-                // comp witness (comp (pair iden inspect_A) (comp (take t) (pair iden inspect_B))) : 1 -> B x 1:
-                // the two inspectors destruct A and B completely, which makes the annotation principal
-                let one = RT::unit();
-                let w = Term::new(Tm::Witness(input.clone()), &one, &t.src);
-                let a1 = RT::prod(&t.src, &one);
-                let b1 = RT::prod(&t.tgt, &one);
-                let pin_a = Term::new(Tm::Pair(Term::new(Tm::Iden, &t.src, &t.src), inspect_term(&t.src)), &t.src, &a1);
-                let run = Term::new(Tm::Take(t.clone()), &a1, &t.tgt);
-                let body = if t.tgt.width() <= 16 {
-                    let pin_b = Term::new(Tm::Pair(Term::new(Tm::Iden, &t.tgt, &t.tgt), inspect_term(&t.tgt)), &t.tgt, &b1);
-                    Term::new(Tm::Comp(run, pin_b), &a1, &b1)
-                } else {
-                    run
-                };
-                let tgt = body.tgt.clone();
-                let prog = Term::new(Tm::Comp(w, Term::new(Tm::Comp(pin_a, body), &t.src, &tgt)), &one, &tgt);
+                let prog = pinned_expression(&t, &input);
                 let r = b.redeem(&prog).map_err(|e| ("term-outputs:build".to_string(), e))?;
                 let (pb, wb) = r.to_vec_with_witness();
                 // the harness pins every arrow to the term's annotation; only programs for which that
